@@ -75,6 +75,10 @@ def run_case(case):
 def judge(case, res, dens):
     """dens = (denotation of original, denotation of written). -> list of (signature, what)"""
     out = []
+    if dens is not None:
+        ok, why = spec.well_formed(dens[0])
+        if not ok:
+            return [("skip", "not well-formed per G: " + why)]
     if "error" in res:
         if case["kind"] == "gen" or res["stage"] == "write":
             out.append(({"mechanism": "roundtrip", "class": res["stage"] + "-raised", "exception": res["error"]},
@@ -82,7 +86,7 @@ def judge(case, res, dens):
         return out
     a, b = dens
     seen = set()
-    for cls, where, detail in spec.diff_problems(a, b):
+    for cls, where, detail in spec.diff_problems(a, b, geometry_equal=spec.geometry_equal):
         sig = {"mechanism": "roundtrip", "class": cls}
         if cls == "cell-geometry":
             sig["how"] = geometry_class(detail[0], detail[1])
@@ -100,6 +104,12 @@ def judge(case, res, dens):
     return out
 
 
+def _dens(c, r):
+    if "written" in r:
+        return tuple(spec.denote_many([c["text"], r["written"]], c["limit"]))
+    return (spec.denote_many([c["text"]], c["limit"])[0], None)
+
+
 def model_request(case, res):
     o = res["objects"]
     return {"limit": case["limit"], "message": o["message"], "title": o["title"], "cells": o["cells"],
@@ -109,7 +119,8 @@ def model_request(case, res):
 def gen_cases(chk):
     cases = []
     for name, text in wholefile.fixtures():
-        cases.append({"kind": "fixture", "name": name, "limit": 128, "text": wholefile.ascii_clean(text)})
+        for lim in (128, 80):
+            cases.append({"kind": "fixture", "name": name, "limit": lim, "text": wholefile.ascii_clean(text)})
     rng = chk.rng("gen")
     n = chk.pick(300, 6000)
     for i in range(n):
@@ -136,7 +147,7 @@ def run(chk):
     chk.assumptions = [
         "the SLY lexer/LALR parser is not modelled: that the syntax trees are lossless is observed on the real trees (oracle), not proved",
         "Spec/File.lean is a faithful reading of MCNP's input rules (MCNP itself is not available)",
-        "geometry is compared word for word after dropping explicit '+' signs (a stricter test than Boolean equality)",
+        "geometry is compared word for word after dropping explicit '+' signs, and when the words differ as Boolean functions (Spec/GeomEval.lean, all assignments, <= 14 atoms)",
     ]
     chk.trusted_base = [
         "Lean 4.33.0 kernel",
@@ -157,22 +168,16 @@ def run(chk):
             chk.count("fixture-not-readable")
             continue
         usable.append((c, r))
-    texts, idx = [], []
-    for k, (c, r) in enumerate(usable):
-        if "written" in r:
-            texts += [(c["text"], c["limit"]), (r["written"], c["limit"])]
-            idx.append(k)
     dens = {}
-    by_limit = {80: [], 128: []}
-    for j, (t, lim) in enumerate(texts):
-        by_limit[lim].append(j)
-    flat = [None] * len(texts)
-    for lim, js in by_limit.items():
-        if js:
-            for j, d in zip(js, spec.denote_many([texts[j][0] for j in js], lim)):
-                flat[j] = d
-    for n, k in enumerate(idx):
-        dens[k] = (flat[2 * n], flat[2 * n + 1])
+    for lim in (80, 128):
+        ks = [k for k, (c, r) in enumerate(usable) if c["limit"] == lim]
+        if not ks:
+            continue
+        orig = spec.denote_many([usable[k][0]["text"] for k in ks], lim)
+        wk = [k for k in ks if "written" in usable[k][1]]
+        writ = dict(zip(wk, spec.denote_many([usable[k][1]["written"] for k in wk], lim))) if wk else {}
+        for k, o in zip(ks, orig):
+            dens[k] = (o, writ.get(k))
 
     reqs, req_idx = [], []
     for k, (c, r) in enumerate(usable):
@@ -186,6 +191,10 @@ def run(chk):
     for k, (c, r) in enumerate(usable):
         d = dens.get(k)
         ncards = (len(d[0]["cells"]) + len(d[0]["surfaces"]) + len(d[0]["data"])) if d else 0
+        ok, why = spec.well_formed(d[0])
+        if not ok:
+            chk.count("not-in-quantifier:" + why.split("(")[0].strip()[:50])
+            continue
         nontrivial = ncards >= 3 and ("\n     " in c["text"] or "$" in c["text"] or "\nc " in c["text"].lower())
         chk.note_case({"name": c["name"], "limit": c["limit"], "hash": chash(c["text"]), "first_lines": c["text"].split("\n")[:4]}, nontrivial)
         chk.count("kind:" + c["kind"])
@@ -193,12 +202,13 @@ def run(chk):
         if c.get("style"):
             chk.count("style:" + c["style"])
         verdicts = judge(c, r, d)
+        if verdicts and verdicts[0][0] == "skip":
+            chk.count("not-in-quantifier:" + verdicts[0][1].split(":")[0])
+            continue
         for sig, what in verdicts:
             # confirm (and shrink generated cases) before reporting
             r2 = run_case(c)
-            d2 = None
-            if "written" in r2:
-                d2 = tuple(spec.denote_many([c["text"], r2["written"]], c["limit"]))
+            d2 = _dens(c, r2)
             if sig not in [s for s, _ in judge(c, r2, d2)]:
                 chk.count("flaky:violation-not-reproduced")
                 continue
@@ -208,8 +218,7 @@ def run(chk):
                 def fails(t, sig=sig, c=c):
                     cc = dict(c, text=t)
                     rr = run_case(cc)
-                    dd = tuple(spec.denote_many([t, rr["written"]], c["limit"])) if "written" in rr else None
-                    return sig in [s for s, _ in judge(cc, rr, dd)]
+                    return sig in [s for s, _ in judge(cc, rr, _dens(cc, rr))]
 
                 text = wholefile.shrink_text(text, fails, c["limit"])
             rr = run_case(dict(c, text=text))
@@ -254,7 +263,7 @@ def replay(chk, payload):
     c = {"kind": "gen", "name": case.get("name", "replay"), "limit": case["limit"], "text": case["text"]}
     chk.rule = "replay of one stored case"
     r = run_case(c)
-    d = tuple(spec.denote_many([c["text"], r["written"]], c["limit"])) if "written" in r else None
+    d = _dens(c, r)
     chk.note_case({"name": c["name"]})
     for sig, what in judge(c, r, d):
         chk.violation(sig, what, {"name": c["name"], "limit": c["limit"], "text": c["text"], "written": r.get("written")})
